@@ -53,8 +53,12 @@ VSTInv == \A cl \in { k \in SeqsUpTo({"script", "deposit", "mint", "pledge"}, 3)
             \A st \in [1 .. Len(cl) -> VSTStates] : \A f \in BOOLEAN :
               VSTAccept(cl, st, f) => \A i \in DOMAIN cl : st[i] = "missing" \/ cl[i] \in Batchable
 
+\* what the kernel rule lets through, the store records without aborting
+KernelImpliesStore == \A o \in Ops : (o.n = 1 /\ o.cls \in ConsClass /\ ValidateRefOK(o.cls, o.ref, o.tsk, o.rep)) => WriteOK(o)
+
 Inv ==
     /\ IsChain(chain)
+    /\ KernelImpliesStore
     /\ VSTInv
     /\ (Family = "snap" /\ c # NoCase /\ KSnapAccept(c)) => KSnapNecessary(c.classes, c.ref, c.tsk, c.rep)
 
